@@ -671,7 +671,9 @@ func dropUselessFrames(script string) string {
 
 func (u *Unit) scriptOpt(o *Obligation, dropQuant bool) string { return dropUselessFrames(u.scriptOpt0(o, dropQuant)) }
 
-func (u *Unit) scriptOpt0(o *Obligation, dropQuant bool) string {
+func (u *Unit) scriptOpt0(o *Obligation, dropQuant bool) string { return u.scriptOpt1(o, dropQuant, nil) }
+
+func (u *Unit) scriptOpt1(o *Obligation, dropQuant bool, hide map[int]bool) string {
 	var b strings.Builder
 	items := u.ctx.items[:o.Mark]
 	anc := u.ancestorBlocks(o.Blk)
@@ -693,7 +695,7 @@ func (u *Unit) scriptOpt0(o *Obligation, dropQuant bool) string {
 	push(symsOf(o.Guard))
 	push(symsOf(o.Cond))
 	for i := range items {
-		if items[i].kind == itAssert && relevantItem(&items[i], anc) {
+		if items[i].kind == itAssert && relevantItem(&items[i], anc) && !hide[i] {
 			push(items[i].syms)
 		}
 	}
@@ -705,14 +707,14 @@ func (u *Unit) scriptOpt0(o *Obligation, dropQuant bool) string {
 			push(u.ctx.items[idx].syms)
 		}
 	}
-	for _, it := range items {
+	for i, it := range items {
 		switch it.kind {
 		case itDecl, itDefine, itRaw:
 			if it.name != "" && !needed[it.name] {
 				continue
 			}
 		case itAssert:
-			if !relevantItem(&it, anc) {
+			if !relevantItem(&it, anc) || hide[i] {
 				continue
 			}
 			if dropQuant && (strings.Contains(it.text, "(forall ") || strings.Contains(it.text, "(exists ")) {
@@ -738,6 +740,65 @@ func (u *Unit) scriptOpt0(o *Obligation, dropQuant bool) string {
 	}
 	fmt.Fprintf(&b, "(assert (not %s))\n", implies(o.Guard, o.Cond))
 	return b.String()
+}
+
+// labelBase reduces an obligation or fact label to its clause name: "loop2.positive/1@b11" -> "positive".
+func labelBase(l string) string {
+	if i := strings.LastIndex(l, ":"); i >= 0 {
+		l = l[i+1:]
+	}
+	if i := strings.LastIndex(l, "·"); i >= 0 {
+		l = l[i+len("·"):]
+	}
+	if i := strings.Index(l, "@"); i >= 0 {
+		l = l[:i]
+	}
+	if i := strings.Index(l, "/"); i >= 0 {
+		l = l[:i]
+	}
+	if i := strings.LastIndex(l, "."); i >= 0 {
+		l = l[i+1:]
+	}
+	return l
+}
+
+func isSpecFactTag(tag string) bool {
+	for _, p := range []string{"inv:", "obl:", "requires:", "post:", "valid:", "lemma:"} {
+		if strings.HasPrefix(tag, p) {
+			return true
+		}
+	}
+	return false
+}
+
+// scriptFocused hides every quantified specification fact (invariant, earlier obligation, requires, callee
+// postcondition, lemma) whose clause name is neither the goal's own nor listed by a "focus" hint of the root contract.
+// Everything else is kept. Returns "" when nothing would be hidden. Hiding assumptions is sound for a proof attempt.
+func (u *Unit) scriptFocused(o *Obligation) string {
+	keep := map[string]bool{labelBase(o.Label): true}
+	if ct := u.db.forFunc(u.rootKey); ct != nil {
+		for _, n := range ct.Focus[labelBase(o.Label)] {
+			keep[n] = true
+		}
+	}
+	hide := map[int]bool{}
+	for i := range u.ctx.items[:o.Mark] {
+		it := &u.ctx.items[i]
+		if it.kind != itAssert || !isSpecFactTag(it.tag) {
+			continue
+		}
+		if !strings.Contains(it.text, "(forall ") && !strings.Contains(it.text, "(exists ") && !strings.Contains(it.text, "spec:") {
+			continue
+		}
+		if keep[labelBase(it.tag)] {
+			continue
+		}
+		hide[i] = true
+	}
+	if len(hide) == 0 {
+		return ""
+	}
+	return dropUselessFrames(u.scriptOpt1(o, false, hide))
 }
 
 func (u *Unit) inputSyms() []string {
@@ -772,7 +833,68 @@ func solveUnit(res *UnitResult, opt Options) {
 			defer wg.Done()
 			defer func() { <-sem }()
 			script := u.script(o)
-			o.Res = solve(script, u.inputSyms(), opt.Timeout, opt.NeedAgree)
+			// Proof search, cheapest first. Every variant after the first only weakens the assumptions (ground
+			// instances and bridge lemmas are consequences; hiding quantified facts and replacing bv2nat/int2bv by
+			// uninterpreted functions lose information), so "unsat" of a variant is a proof of the obligation; "sat" of
+			// a variant means nothing and is never reported.
+			var spent float64
+			try := func(s, how string, quick bool) bool {
+				if s == "" {
+					return false
+				}
+				var r1 SolveResult
+				if quick {
+					qt := 6 * time.Second
+					if opt.Timeout < qt {
+						qt = opt.Timeout
+					}
+					r1 = solve(s, nil, qt, opt.NeedAgree)
+				} else {
+					r1 = solve(s, nil, opt.Timeout, opt.NeedAgree)
+				}
+				spent += r1.Seconds
+				if r1.Verdict == "unsat" {
+					r1.Solver += how
+					r1.Seconds = spent
+					o.Res = r1
+					return true
+				}
+				return false
+			}
+			quant := strings.Contains(script, "(forall ") || strings.Contains(script, "(exists ")
+			done := false
+			if opt.NeedAgree <= 1 && quant {
+				if r0 := solveQuick(script, opt.Timeout); r0.Verdict != "unknown" {
+					o.Res = r0
+					if r0.Verdict == "sat" {
+						// get the model through the portfolio path below
+						o.Res = solve(script, u.inputSyms(), opt.Timeout, opt.NeedAgree)
+					}
+					done = true
+				} else {
+					spent += r0.Seconds
+					var fs string
+					done = try(ginstScriptOpt(script, true, true), " +ground-instances/uf", true)
+					if !done {
+						fs = u.scriptFocused(o)
+						done = fs != "" && try(ginstScriptOpt(fs, true, true), " +focused+ground-instances/uf", true)
+					}
+				}
+			}
+			if !done {
+				o.Res = solve(script, u.inputSyms(), opt.Timeout, opt.NeedAgree)
+				o.Res.Seconds += spent
+				spent = o.Res.Seconds
+			}
+			if o.Res.Verdict == "unknown" && quant {
+				if !try(ginstScriptOpt(script, true, true), " +ground-instances/uf", false) && !try(ginstScript(script, true), " +ground-instances", false) && !try(ginstScript(script, false), " +instances", false) {
+					if fs := u.scriptFocused(o); fs != "" {
+						if !try(ginstScriptOpt(fs, true, true), " +focused+ground-instances/uf", false) && !try(fs, " +focused", false) && !try(ginstScript(fs, true), " +focused+ground-instances", false) {
+							try(ginstScript(fs, false), " +focused+instances", false)
+						}
+					}
+				}
+			}
 			if o.Res.Verdict == "unknown" {
 				// candidate counterexample search without quantified assumptions
 				r2 := solve(u.scriptQF(o), u.inputSyms(), opt.Timeout, 1)
